@@ -164,6 +164,7 @@ PROPS = {
     },
     "C17": {
         "verus": ["reader_trace"],
+        "jobs": 3,  # the transition harnesses peak at ~9 GB each
         # the only long loop is the 16-byte sync-marker comparison (memcmp): give it its own bound
         # instead of unwinding every loop and recursion 19 times
         "kani_args": ["CBMC:--unwindset", "CBMC:memcmp.0:18"],
